@@ -38,7 +38,7 @@ static struct cstl_bintree_node * cstl_heap_find(
     const unsigned int loc = id + 1;
     unsigned int b;
 
-    for (b = (1 << cstl_fls(loc)) >> 1; p != NULL && b != 0; b >>= 1) {
+    for (b = (1u << cstl_fls(loc)) >> 1; p != NULL && b != 0; b >>= 1) {
         if ((loc & b) == 0) {
             p = p->l;
         } else {
